@@ -419,7 +419,7 @@ def lv_passes(nodes, o):
 def one_case(ctx, case, acc, judge_only=False):
     """Run all five functions on one case (presented under its label map / container shapes), judge with the Python
     references on nat ids, collect Coq cases in acc.  Returns the list of (what, replay) violations found."""
-    from harness.props.C15_hard import IDENT, KF_NONE, KF_UNORD, ORDERABLE, gate
+    from harness.props.C15_hard import IDENT, ORDERABLE
 
     nodes, nb, dpq, tol, max_iter, res = case[:6]
     pres = tuple(case[6]) if len(case) > 6 and case[6] else IDENT
@@ -445,10 +445,7 @@ def one_case(ctx, case, acc, judge_only=False):
         if not judge_only:
             ctx.evaluations += 1
         if r[0] != "ok":
-            if kind == "lv" and not orderable and r[0] == "exc" and r[1] == "TypeError":
-                gate(ctx, KF_UNORD, f"louvain raises TypeError on hashable but unorderable labels ({pres[0]}): {r[2][:80]}", {**base, "kind": kind}, bad)
-            else:
-                bad.append((f"{kind}: implementation {r[0]} {r[1:]}", {**base, "kind": kind}))
+            bad.append((f"{kind} (labels {pres[0]}, nodes as {pres[1]}, neighbours as {pres[2]}): implementation {r[0]} {r[1:]}", {**base, "kind": kind}))
             return None
         if not r[1].get("inputs_unchanged", True):
             bad.append((f"{kind}: the caller's node list / neighbour lists were modified by the call", {**base, "kind": kind}))
@@ -462,11 +459,7 @@ def one_case(ctx, case, acc, judge_only=False):
             continue
         v = judge(nodes, nb, o)
         if v:
-            if kind == "ap" and (pres[0] == "none" or (pres[0] == "mixed" and 0 in nodes)):  # a node carries the label None
-                gate(ctx, KF_NONE, f"articulation_points with a node labelled None: {v}", {**base, "kind": kind, "impl": o}, bad)
-                oa = None
-            else:
-                bad.append((v, {**base, "kind": kind, "impl": o}))
+            bad.append((v, {**base, "kind": kind, "impl": o}))
     if oa is not None and not judge_only:
         if all(_int(x) for x in (oa["objective"], oa["iterations"], oa["evaluations"])):
             acc["ap"].append((f"({G}, ({clist(oa['solution'])}, {oa['objective']}, {oa['iterations']}, {oa['evaluations']}))", case, oa))
@@ -616,7 +609,14 @@ def run(ctx: Ctx):
                 "sparse/dense/tree/cycle+tails/two cliques/two components; symmetric, one-way and mixed neighbour lists, self loops, "
                 "duplicate neighbours, labels outside the node set, isolated nodes; damping from a rational grid in (0,1), tol 5e-2..1e-8, "
                 "max_iter 1..100, resolution 0.05..4; each case is run through all five functions; non-trivial = at least 3 nodes "
-                "and 2 undirected edges; distinct = canonical JSON of (nodes, neighbour lists, parameters)")
+                "and 2 undirected edges; distinct = canonical JSON of (nodes, neighbour lists, parameters, presentation).  Round-2 families "
+                "(harness/props/C15_hard.py): every case is PRESENTED under a label map (fresh equal-but-not-identical ints >= 257 / 2^31 / 2^53 / 2^60 / "
+                "10^18, negatives and falsy labels, floats, tuples, strings, a mixed-type pool with None/False/frozenset) and container shapes (nodes as "
+                "list/tuple/generator/iterator/dict view/map; neighbours as list/tuple/generator/iterator/the caller's own list) while models and oracles "
+                "work on nat ids; 30% of the cases take option corners (damping 1e-12..1-1e-12, tol 0..1e9, max_iter 0..10^9, resolution 1e-300..2^60, "
+                "k from -10^18 to 2^60); max_iter sweep 0..40 with a prefix-consistency oracle, omitted-option defaults, resolution sweep; call "
+                "sequences on one shared input in two orders, inputs unchanged, cleared results; structured instances with answers by construction up "
+                "to 65537 nodes (thorough 300000); rare internal events counted by reference ports and searched for when missing")
     ctx.proof_step(["C15"])
     ctx.notes += [
         "pagerank model is exact in Q with the nominal rational damping p/q (the run uses float(p/q)); scores/objective compared with 1e-9; "
@@ -629,7 +629,10 @@ def run(ctx: Ctx):
         "kcore: buckets[k].pop() order is not observable; the model pops the first element; compared observable (core numbers) is "
         "pick-independent by theorem C15_kcore",
         "articulation/bridges: model follows _undirected_adjacency insertion order; results compared as sets (the property leaves the order free); the model is proved exact (C15_artic_points_exact / C15_artic_bridges_exact) and the implementation answer is additionally certified per case by ap_spec_check / br_spec_check",
-        "node lists without repeated nodes, integer labels (bridges orders endpoints with <)",
+        "node lists without repeated nodes; bridges is run only under strictly monotone orderable label maps (its documented (u < v) orientation needs an "
+        "order); louvain modularity tolerance is 1e-9 * max(1, |Q|) (resolution up to 2^60 makes |Q| ~ 1e17, where 1e-9 absolute is below one ulp)",
+        "pagerank cases with damping denominators > 1000 are replayed in Coq only up to 8 iterations, max_iter > 5000 is passed to the model as 5000 "
+        "(same stopping iteration); structured large instances, call sequences and negative / huge k are judged by the Python references only",
     ]
     big = ctx.tier == "thorough"
     cases = all_cases(ctx, ctx.budget(260, 5000), big)
